@@ -9,7 +9,25 @@ import (
 
 // ShadowNames are identifiers the generated code introduces inside the closure
 // it puts in place of a directive.
-var ShadowNames = []string{"err", "sched", "tasks", "emitter", "task0", "v1", "flowInfo", "startTime", "schedEmitter", "v2", "flowEmitter", "schedInfo", "task1"}
+var ShadowNames = []string{"err", "sched", "tasks", "emitter", "task0", "v1", "flowInfo", "startTime", "schedEmitter", "v2", "flowEmitter", "schedInfo", "task1", "ctx"}
+
+// shadowName is the name of the i-th shadowing variable of the program: the
+// list is rotated by a per-program offset so that, over a corpus, every name
+// is used.
+func (p *Program) shadowName(i int) string {
+	return ShadowNames[(p.nameOffset()+i)%len(ShadowNames)]
+}
+
+func (p *Program) nameOffset() int {
+	h := 0
+	for _, c := range p.Name {
+		h = h*31 + int(c)
+	}
+	if h < 0 {
+		h = -h
+	}
+	return h
+}
 
 // TypeExpr is the Go type expression of value type id.
 func (p *Program) TypeExpr(id int) string {
@@ -235,7 +253,7 @@ func (pr *printer) wp(expr, poison string) string {
 	}
 	name := fmt.Sprintf("b%d", pr.nbare)
 	if pr.p.Shadow && pr.nbare < len(bareShadowNames) {
-		name = bareShadowNames[pr.nbare]
+		name = bareShadowNames[(pr.p.nameOffset()+pr.nbare)%len(bareShadowNames)]
 	}
 	pr.nbare++
 	fmt.Fprintf(&pr.pre, "\t%s := %s\n", name, expr)
@@ -470,9 +488,31 @@ func (pr *printer) source() string {
 	if p.Flow != nil {
 		f := p.Flow
 		ctxExpr = pr.wp("x.Ctx()", "rt.PoisonCtx(x)")
-		for i, t := range f.Results {
-			fmt.Fprintf(&resDecl, "\tr%d := mkT%d(x.Sentinel(%d))\n", i, t, i)
-			fmt.Fprintf(&post, "\tx.Result(%d, unT%d(r%d))\n", i, t, i)
+		if f.ResultsVia {
+			// type resHolder struct{ r0 T..; r1 T.. } is declared at package level
+			pr.decls.WriteString("type resHolder struct {\n")
+			for i, t := range f.Results {
+				fmt.Fprintf(&pr.decls, "\tr%d %s\n", i, p.TypeExpr(t))
+			}
+			pr.decls.WriteString("}\n\n")
+			mk := "&resHolder{"
+			for i, t := range f.Results {
+				if i > 0 {
+					mk += ", "
+				}
+				mk += fmt.Sprintf("r%d: mkT%d(x.Sentinel(%d))", i, t, i)
+			}
+			mk += "}"
+			fmt.Fprintf(&resDecl, "\tres := %s\n\torig := res\n\tx.SetPoison(func() { res = %s })\n", mk, mk)
+			for i, t := range f.Results {
+				fmt.Fprintf(&post, "\tx.Result(%d, unT%d(orig.r%d))\n", i, t, i)
+				fmt.Fprintf(&post, "\tif unT%d(res.r%d) != x.Sentinel(%d) {\n\t\tx.NoteLate(\"the Results target &res.r%d was evaluated after the first user function had started: the result went to the struct res pointed to by then\")\n\t}\n", t, i, i, i)
+			}
+		} else {
+			for i, t := range f.Results {
+				fmt.Fprintf(&resDecl, "\tr%d := mkT%d(x.Sentinel(%d))\n", i, t, i)
+				fmt.Fprintf(&post, "\tx.Result(%d, unT%d(r%d))\n", i, t, i)
+			}
 		}
 		rank := func(i int) int {
 			if i < len(f.OptOrder) {
@@ -487,7 +527,7 @@ func (pr *printer) source() string {
 					var a []string
 					for _, i := range idx {
 						if p.Shadow {
-							name := ShadowNames[i%len(ShadowNames)]
+							name := p.shadowName(i)
 							fmt.Fprintf(&pr.pre, "\t%s := mkT%d(x.Param(%d))\n", name, f.Params[i], i)
 							if p.Bare {
 								fmt.Fprintf(&pr.poison, "\t\t%s = mkT%d(x.Poison(%d))\n", name, f.Params[i], pr.site)
@@ -517,6 +557,10 @@ func (pr *printer) source() string {
 			os = append(os, opt{rank(1), func() string {
 				var a []string
 				for i := range f.Results {
+					if f.ResultsVia {
+						a = append(a, fmt.Sprintf("&res.r%d", i))
+						continue
+					}
 					a = append(a, pr.wp(fmt.Sprintf("&r%d", i), fmt.Sprintf("rt.PoisonPtr(x, &r%d)", i)))
 				}
 				return "cff.Results(" + strings.Join(a, ", ") + ")"
